@@ -216,3 +216,73 @@ def err_of(e: BaseException) -> str:
 def show(term: Any, limit: int = 400) -> str:
     s = repr(term)
     return s if len(s) <= limit else s[:limit] + "…"
+
+
+# ------------------------------------------------------------------ display-hook programs (C17)
+# val   := ('none',) ('ellipsis',) ('text', s) ('num', txt) ('html', s) ('reprHtml', s) ('tagRef', id) ('invalid',)
+# item  := ('text', s) ('html', s) ('robj', s) ('tagRef', id)
+# stmt  := ('d', val) | ('b', tag_id, [stmt...]) | ('r',)
+_HVAL0 = {"none": "vn", "ellipsis": "ve", "invalid": "vi"}
+_HVAL1 = {"text": "vt", "num": "vm", "html": "vh", "reprHtml": "vr"}
+_HITEM1 = {"text": "it", "html": "ih", "robj": "ir"}
+
+
+def ehval(v) -> str:
+    k = v[0]
+    if k in _HVAL0:
+        return _HVAL0[k]
+    if k == "tagRef":
+        return "vg " + str(v[1])
+    return _HVAL1[k] + " " + es(v[1])
+
+
+def ehitem(i) -> str:
+    if i[0] == "tagRef":
+        return "ig " + str(i[1])
+    return _HITEM1[i[0]] + " " + es(i[1])
+
+
+def ehprog(p) -> str:
+    if p[0] == "d":
+        return "d " + ehval(p[1])
+    if p[0] == "r":
+        return "r"
+    return "b " + str(p[1]) + " " + ehprogs(p[2])
+
+
+def ehprogs(ps) -> str:
+    return elist([ehprog(p) for p in ps])
+
+
+def p_hval(t: Toks):
+    k = t.next()
+    for name, tok in _HVAL0.items():
+        if k == tok:
+            return (name,)
+    if k == "vg":
+        return ("tagRef", int(t.next()))
+    for name, tok in _HVAL1.items():
+        if k == tok:
+            return (name, p_str(t))
+    raise ValueError(f"bad hook value {k}")
+
+
+def p_hitem(t: Toks):
+    k = t.next()
+    if k == "ig":
+        return ("tagRef", int(t.next()))
+    for name, tok in _HITEM1.items():
+        if k == tok:
+            return (name, p_str(t))
+    raise ValueError(f"bad hook item {k}")
+
+
+def p_hprog(t: Toks):
+    k = t.next()
+    if k == "d":
+        return ("d", p_hval(t))
+    if k == "r":
+        return ("r",)
+    if k == "b":
+        return ("b", int(t.next()), p_list(t, p_hprog))
+    raise ValueError(f"bad hook statement {k}")
